@@ -3,6 +3,7 @@
 package props
 
 import (
+	"bytes"
 	"encoding/json"
 	"fmt"
 	"math/big"
@@ -12,6 +13,7 @@ import (
 
 	"verif/ev"
 	"verif/mc"
+	"verif/ref/smf"
 )
 
 // Explicit-state accounting on the real midix.MIDIWriter through the VerifState hook.
@@ -79,69 +81,75 @@ type wopsCase struct {
 	Close  bool  `json:"close"`
 }
 
-// accountingRun replays ops on a fresh writer, checking the clock invariant after every
-// call; returns the canonical state key.
+// accountingRun replays ops on a fresh writer. The oracle is observational: after every
+// prefix of the calls a *fresh* writer replays the prefix, is closed and written out, and
+// the decoded file must show every note-on/off at the tick the calls imply and (C06) every
+// track ending at the clock. The hook is used only to name the state (pending delays).
 func accountingRun(e *Env, prop string, c wopsCase, report bool) (string, bool) {
-	set, err := midix.NewTrackSetControllerFromTrackNum(c.Tracks)
-	if err != nil {
-		panic(err)
-	}
-	w := midix.NewWriter(960, set, "Piano", 0)
-	var clock int64
 	fail := func(class, msg string) (string, bool) {
 		if report {
 			e.R.Fail(ev.Fail{Class: class, Msg: msg, Kind: "writer-ops", Case: c})
 		}
 		return "", false
 	}
-	check := func(step int, closed bool) (string, bool) {
-		s := w.VerifState()
-		for ti, t := range s.Tracks {
-			var sum int64
-			for _, d := range t.Deltas {
-				sum += int64(d)
-			}
-			have := sum + int64(t.Pending) + int64(s.Pending)
-			if closed {
-				// after Close every track must stand exactly at the total duration
-				have = sum
-				if len(t.Kinds) == 0 || !strings.HasSuffix(t.Kinds[len(t.Kinds)-1], "Close") {
-					return fail(prop+"/accounting/no-close", fmt.Sprintf("track %d of %d has no end-of-track after Close; ops %v", ti, c.Tracks, c.Ops))
-				}
-			}
-			if have != clock {
-				cl := prop + "/accounting/clock"
-				if closed {
-					cl = prop + "/accounting/close-clock"
-					if c.Tracks > 1 {
-						cl += "/multi-track"
-					}
-				}
-				return fail(cl, fmt.Sprintf("after %d call(s) of %v on %d track(s)%s: track %d stands at %d ticks (ops %d + pending %d + writer pending %d), the global clock at %d",
-					step, c.Ops, c.Tracks, map[bool]string{true: " and Close", false: ""}[closed], ti, have, sum, t.Pending, s.Pending, clock))
-			}
+	build := func(n int) (*midix.MIDIWriter, int64, map[int64]map[string]int) {
+		set, err := midix.NewTrackSetControllerFromTrackNum(c.Tracks)
+		if err != nil {
+			panic(err)
 		}
+		w := midix.NewWriter(960, set, "Piano", 0)
+		var clock int64
+		want := map[int64]map[string]int{}
+		add := func(t int64, k string) {
+			if want[t] == nil {
+				want[t] = map[string]int{}
+			}
+			want[t][k]++
+		}
+		for _, o := range c.Ops[:n] {
+			applyWop(w, o)
+			if o.Kind == "note" {
+				for i := 0; i < o.NKeys; i++ {
+					add(clock, fmt.Sprintf("on key%d", 60+3*i))
+					add(clock+wopTicks(o), fmt.Sprintf("off key%d", 60+3*i))
+				}
+			}
+			clock += wopTicks(o)
+		}
+		return w, clock, want
+	}
+	key := ""
+	for n := 1; n <= len(c.Ops); n++ {
+		w, clock, want := build(n)
+		s := w.VerifState()
 		var b strings.Builder
 		fmt.Fprintf(&b, "%d|", s.Pending)
 		for _, t := range s.Tracks {
 			fmt.Fprintf(&b, "%d,", t.Pending)
 		}
-		return b.String(), true
-	}
-	key := ""
-	for i, o := range c.Ops {
-		applyWop(w, o)
-		clock += wopTicks(o)
-		k, ok := check(i+1, false)
-		if !ok {
-			return "", false
-		}
-		key = k
-	}
-	if c.Close {
+		key = b.String()
 		w.Close()
-		if _, ok := check(len(c.Ops), true); !ok {
-			return "", false
+		var buf bytes.Buffer
+		if _, err := w.WriteTo(&buf); err != nil {
+			return fail(prop+"/accounting/write-fails", fmt.Sprintf("after %v on %d track(s): %v", c.Ops[:n], c.Tracks, err))
+		}
+		f, err := smf.Parse(buf.Bytes())
+		if err != nil {
+			return fail(prop+"/accounting/undecodable", fmt.Sprintf("after %v on %d track(s): %v", c.Ops[:n], c.Tracks, err))
+		}
+		if got := noteTimeline(f); !sameTimeline(want, got) {
+			return fail(prop+"/accounting/clock", fmt.Sprintf("after %v on %d track(s): notes at %s, the calls imply %s", c.Ops[:n], c.Tracks, timelineString(got), timelineString(want)))
+		}
+		if c.Close {
+			for ti, tr := range f.Tracks {
+				if eot := smf.EndOfTrackTick(tr); eot != clock {
+					cl := prop + "/accounting/close-clock"
+					if c.Tracks > 1 {
+						cl += "/multi-track"
+					}
+					return fail(cl, fmt.Sprintf("after %v on %d track(s) and Close: track %d ends at tick %d, the clock stands at %d", c.Ops[:n], c.Tracks, ti, eot, clock))
+				}
+			}
 		}
 	}
 	return key, true
@@ -164,7 +172,7 @@ func writerAccounting(e *Env, prop string, withClose bool, tracks []int, depth i
 			e.R.State(fmt.Sprintf("N%d:%s", n, k))
 			return k, true
 		})
-		e.R.AddPart(ev.Part{Name: fmt.Sprintf("writer-accounting-N%d", n), Enumerated: fmt.Sprintf("explicit-state: state = (writer pending, %d per-track pending delays) read through the VerifState hook; 7 writer calls {Note x3, Rest x2, Tempo, Text}; BFS with state hashing to depth %d; invariant in every state: ops + pending + writer pending = global clock on every track%s", n, depth, map[bool]string{true: "; after Close every track stands at the total", false: ""}[withClose]), Executions: int64(res.Transitions), States: int64(res.States), Transitions: int64(res.Transitions), Exhaustive: false, Note: "depth-capped (the pending values grow without bound, no fixpoint); soundness of hashing: Track.Add reads only the pending delay and ops are append-only, so equal vectors have equal futures up to translation"})
+		e.R.AddPart(ev.Part{Name: fmt.Sprintf("writer-accounting-N%d", n), Enumerated: fmt.Sprintf("explicit-state: state = (writer pending, %d per-track pending delays) read through the VerifState hook; 7 writer calls {Note x3, Rest x2, Tempo, Text}; BFS with state hashing to depth %d; in every state a fresh writer replays the prefix, is closed, written and decoded: every note at the tick the calls imply%s", n, depth, map[bool]string{true: "; every track ends at the clock", false: ""}[withClose]), Executions: int64(res.Transitions), States: int64(res.States), Transitions: int64(res.Transitions), Exhaustive: false, Note: "depth-capped (the pending values grow without bound, no fixpoint); state key = pending delays read through the hook: equal vectors have equal futures up to translation in today's implementation; if an implementation kept time differently the key could merge states (less exploration), the oracle itself is observational and cannot raise a false alarm"})
 	}
 }
 
